@@ -129,17 +129,18 @@ class Map(Evaluatable[Iterable[Tuple[Dict[str, JSON], A]]]):
 
     def explain(self, options: Optional[Options] = None) -> Set[str]:
         """Return the option keys required by the evaluatable and the option iterables"""
+        iterable_keys: Set[str] = set().union(
+            *(iterable.explain(options) for iterable in self.iterables.values())
+        )
         try:
-            return set().union(
-                self._iter(options or {}).explain(options),
-                *(iterable.explain(options) for iterable in self.iterables.values()),
-            )
+            iterated = self._iter(options or {})
         except EvaluationError:
+            # the option iterables cannot be evaluated yet
             return (
                 self.evaluatable.explain(options) - self.iterables.keys()
-            ) | set().union(
-                *(iterable.explain(options) for iterable in self.iterables.values())
-            )
+            ) | iterable_keys
+
+        return iterated.explain(options) | iterable_keys
 
     def _iter(
         self, options: Options
